@@ -47,6 +47,7 @@ type FuncContract struct {
 	ModText  []string
 	ModAll   bool // "modifies everything"
 	ModExcept []Expr // with "modifies heap": components that are NOT modified (heap-except(...))
+	ModGhosts bool // "allghosts" (with heap / heap-except): the ghost state is not preserved either
 	ModHeap  bool // "modifies heap": every program-visible location, but only the listed ghost state
 	HasMod   bool
 	Wrapping bool
@@ -663,6 +664,10 @@ func parseContractFile(path, pkgPath string, requirePrefix bool) (*ContractFile,
 				}
 				if part == "heap" {
 					curF.ModHeap = true
+					continue
+				}
+				if part == "allghosts" {
+					curF.ModGhosts = true
 					continue
 				}
 				if strings.HasPrefix(part, "heap-except(") && strings.HasSuffix(part, ")") {
